@@ -124,6 +124,7 @@ func init() {
 			}
 			m["rel_varcycle_terminated"] = 300 * scale // graphs with cycles / missing references executed to completion
 			m["computed_pairs"] = 18000 * scale
+			m["computed_pairs_in_style_attribute"] = 12000 * scale
 			m["decl_pairs"] = 9000 * scale
 			m["effect_cases"] = 8000 * scale
 			m["important_observable"] = 300 * scale
@@ -241,6 +242,22 @@ func check(raw json.RawMessage) fw.Result {
 		}
 		res.Fail(in.Rel+"-computed", fmt.Sprintf("computed style differs: %s%s: %s", strings.Join(d, "; "), more, witness()))
 		return res
+	}
+	// the same pair written in style attributes (another site of the cascade: the pending var() /
+	// shorthand machinery is copied per site)
+	if in.After == "" && in.AfterB == "" && in.ReportOnly == "" {
+		tA, errA := computedStyleAt("attr", in.PA, in.A, "")
+		tB, errB := computedStyleAt("attr", in.PB, in.B, "")
+		if errA == nil && errB == nil {
+			res.Count("computed_pairs_in_style_attribute", 1)
+			if d := diffStyles(tA, tB); len(d) > 0 {
+				if len(d) > 4 {
+					d = d[:4]
+				}
+				res.Fail(in.Rel+"-computed-attr", fmt.Sprintf("computed style differs when both sides are written in style attributes: %s: %s", strings.Join(d, "; "), witness()))
+				return res
+			}
+		}
 	}
 	if in.AfterB != "" {
 		res.Count("important_beats_later_rule", 1)
